@@ -274,6 +274,7 @@ def record_run(case, call):
     dist = make_distributor(case)
     counts = []
     quotas = []
+    live = []       # (record, the allocation object passed in, the allocation object returned): re-read after the run
     orig_next = dist.next_count
     orig_q = dist._compute_quota
 
@@ -298,6 +299,9 @@ def record_run(case, call):
             shortcut, eliminated = count_info(tap.take())
             rec.update({'alloc': enc_alloc(new_alloc), 'elected': enc_seats(newly), 'shortcut': shortcut,
                         'eliminated': eliminated, 'quota': qstr(quotas[-1]) if quotas else None})
+            if json.dumps(enc_alloc(allocation)) != json.dumps(rec['alloc_in']):
+                rec['mutated'] = 'the count changed the allocation it was given'
+            live.append((rec, allocation, new_alloc))
             counts.append(rec)
             return new_alloc, newly
         sel = seq.TransferableVoteSelector(dist)
@@ -320,6 +324,18 @@ def record_run(case, call):
         except Exception as e:      # noqa
             res = {'err': err_name(e)}
             msg = str(e)
+        # a state must not change after it was returned: every allocation object of the run is read again now that the process
+        # has finished and compared with the copy taken when it was produced (checklist item 6)
+        for i, (rec, a_in, a_out) in enumerate(live):
+            if 'mutated' in rec:
+                continue
+            try:
+                if json.dumps(enc_alloc(a_in)) != json.dumps(rec['alloc_in']):
+                    rec['mutated'] = f'the state count {i + 1} started from was changed by a later count: now {enc_alloc(a_in)}'
+                elif json.dumps(enc_alloc(a_out)) != json.dumps(rec['alloc']):
+                    rec['mutated'] = f'the state returned by count {i + 1} was changed by a later count: now {enc_alloc(a_out)}'
+            except Exception as e:      # noqa
+                rec['mutated'] = f'state of count {i + 1} unreadable afterwards: {type(e).__name__}'
         counts, leak = defloat(counts)
         if leak:
             dr.bad.append('float in an exact path: ' + leak)
@@ -494,3 +510,13 @@ def warmup_variants(rng, votes, n):
     if kind == 'big':
         return kind, {'votes': [[b, num_str(Fraction(w) * 10 ** 12 + 7)] for b, w in votes], 'n': n}
     return kind, {'votes': votes, 'n': (n % max(1, len(cands))) + 1}
+
+
+def reexhaust_profile(rng):
+    """an elimination count in which a ballot exhausts while an exhausted pile already exists from an earlier count (two seats,
+    Droop): the surplus of 0 partly exhausts, later the bullet votes of an excluded candidate join the same pile"""
+    x = rng.randint(0, 2)
+    votes = [[[0], str(8 + x)], [[0, 1], '8'], [[1], '7'], [[2, 1], '6'], [[3], '3'], [[4, 3], '2']]
+    if rng.random() < 0.5:
+        votes.append([[5], '1'])
+    return votes
